@@ -893,6 +893,8 @@ func (ip *Interp) execFor(fr *Frame, s *ast.ForStmt, st *State, label string) fl
 		}
 		var bodyIn []*State
 		for _, x := range fresh {
+			// an iteration starts with the evaluation of the loop condition
+			x = ip.Dom.Visit(ip, fr, x, LoopIter{s})
 			if s.Cond == nil {
 				bodyIn = append(bodyIn, x)
 				continue
@@ -900,9 +902,6 @@ func (ip *Interp) execFor(fr *Frame, s *ast.ForStmt, st *State, label string) fl
 			t, f := ip.evalCond(fr, x, s.Cond)
 			bodyIn = append(bodyIn, t...)
 			exits.addAll(f)
-		}
-		for i := range bodyIn {
-			bodyIn[i] = ip.Dom.Visit(ip, fr, bodyIn[i], LoopIter{s})
 		}
 		bf := ip.execBlock(fr, s.Body.List, bodyIn)
 		fl.ret = append(fl.ret, bf.ret...)
